@@ -467,6 +467,25 @@ def family_scan_damage(seed):
     return fam
 
 
+def family_manifest_type(seed):
+    """C15: the type code of one manifest fragment is changed from Full to First while the database
+    is closed (checksum and payload untouched); oracle manifest_type."""
+    a = lambda s: s.encode().hex() if s else "-"
+    P = lambda k, v: ["put", a(k), a(v)]
+    D = lambda k: ["delete", a(k)]
+    F, C = ["flush"], ["compact"]
+    hs = [
+        [P("a", "1"), P("b", "old"), F, P("b", "new"), F],
+        [P("a", "1"), F, C, P("b", "2"), F, D("a"), F],
+        [P("k%d" % (seed % 5), "x"), F, P("m", "1"), P("k%d" % (seed % 5), "y"), F, C],
+    ]
+    fam = []
+    for h in hs:
+        for k in (0, 1, 2):
+            fam.append({"oracle": "manifest_type", "db": h + [["manifest_fragment_type", str(k)]]})
+    return fam
+
+
 def known_kinds(family):
     """Committed known findings (status known) of a bounded family, by the kind the oracle reports."""
     try:
@@ -502,6 +521,7 @@ BOUNDS = {
     "family_faults": "5 whole-database histories (3 hand-written, 2 pseudo-random per seed; at most 14 operations over 5 keys, with flushes, manual compactions and reopens, reuse_log_files on and off), each re-run once per counted file-system call (about 60 to 170 per history) with that call failing once, with that call and all later ones failing, and with that call failing once after half of its buffer was written (a torn write that is reported); only wrong results are judged - a panic or a hang of a faulted run is counted as not judged",
     "family_db_views": "whole-database histories of at most 85 operations over 7 keys (18 hand-written - among them the witnesses of F11 (level-targeted manual compactions with 4 KiB files) and F12 (one byte of the manifest altered between close and reopen; `open` may refuse) - + 10 pseudo-random per seed); every live snapshot and the latest state read back through get, both scan directions, seek to every key, a zig-zag walk and 5 cursor scripts per key; every history ends with a directory check (snapshots and iterators released, one empty flush, then the table files on disk must be those of the current version)",
     "family_scan_damage": "7 databases of 120 keys in table files of about 25 blocks (block size 256); one byte of the newest table file is altered at 7 positions spread over the file; every key is looked up and the database is scanned in both directions; a lookup may fail, a scan may fail, neither may show anything else than the pairs written",
+    "family_manifest_type": "3 histories of two or three flushes (one with a manual compaction); while the database is closed the type code of the last, second-to-last or third-to-last fragment of the manifest is changed from Full to First, checksum and payload untouched; each history is also run unaltered (control); `open` may refuse, otherwise every key is looked up and the database is scanned",
     "family_log_reader": "write-ahead-log byte streams built from the hand-written and seeded append / reopen / truncate / flip scripts of tools/replay.py (records up to 3 blocks)",
     "family_table_get": "one table of 16 entries (4 user keys x 4 versions) at block sizes 1, 64, 150, 4096 with 49 lookups, plus a one-entry table",
     "family_key_range": "three hand-written file lists",
